@@ -92,7 +92,7 @@ func ExecuteFree(sc *Scenario, tape *Tape) string {
 		var serr error
 		select {
 		case serr = <-done:
-		case <-time.After(3 * time.Second):
+		case <-time.After(200 * time.Millisecond):
 			// the environment of a clean / unreachable cause: end by cancel
 			cancel()
 			select {
@@ -202,11 +202,13 @@ func firstLibFrame(stack []string) (top string, via string) {
 		}
 	}
 	for _, fn := range stack {
+		// call sites are named after the driver's own (stable) entry points, not
+		// after gobinlog functions a refactoring may rename
 		switch {
 		case strings.HasSuffix(fn, "(*mysqlConn).Close"), strings.HasSuffix(fn, "(*DumpConn).Close"):
-			return top, "mysqlConn.Close"
-		case strings.HasSuffix(fn, "(*slaveConnection).readBinlogEvent"):
-			return top, "readBinlogEvent"
+			return top, "driver Close"
+		case strings.HasSuffix(fn, "(*DumpConn).ReadPacket"), strings.HasSuffix(fn, "(*mysqlConn).readPacket"):
+			return top, "driver ReadPacket"
 		}
 	}
 	for i := len(stack) - 1; i >= 0; i-- {
